@@ -20,4 +20,5 @@ MCSpec == MCInit /\ [][MCNext]_<<vars, napi>>
 
 \* the step property again, for the wrapped specification
 MC_IssuedWithinEntitlement == [][C02_IssuedWithinEntitlementStep]_<<vars, napi>>
+MC_ShadowAfterSync == [][C19_ShadowAfterSyncStep]_<<vars, napi>>
 =============================================================================
